@@ -166,6 +166,35 @@ def find_two_offers(r):
     return dict(cfg=cfg, insts=[], draws=[d0] * 4, events=events, end=rounds[-1] + 2 * T, rev=r.random() < 0.3, fuel=20000)
 
 
+def find_offer_then_stop(r):
+    """OfferService X followed by StopOffer X (and the reverse) in ONE message or in two datagrams of one instant, before a
+    later round, while another watched service stays unfound: the entries count in the order received."""
+    T, MS = scen.T, scen.MS
+    rep = r.choice([2, 3])
+    base = r.choice([T // 4, T // 2])
+    cfg = (0, 0, 0, 0, rep, base, 0, 3, 3, 5, None, r.choice([0, 5 * MS]))
+    rounds = [0]
+    for i in range(rep):
+        rounds.append(rounds[-1] + (1 << i) * base)
+    flt = r.choice([scen.FILTERS[0], scen.SERVICES[0]])
+    regs = [(0, (1, [3, conv.s_service(flt), [0, 0]])), (0, (1, [3, conv.s_service(scen.FILTERS[5]), [0, 1]]))]
+    p = scen.Peer(1)
+    svc = scen.SERVICES[0]
+    k = r.randrange(0, rep)
+    t = rounds[k] + r.choice([1, base // 4, base // 2])
+    order = r.choice(["offer-stop", "offer-stop", "stop-offer", "offer-stop-offer"])
+    ttl = r.choice([0xFFFFFF, 3])
+    es = {"offer-stop": [svc.create_offer_entry(ttl), svc.create_offer_entry(0)], "stop-offer": [svc.create_offer_entry(0), svc.create_offer_entry(ttl)],
+          "offer-stop-offer": [svc.create_offer_entry(ttl), svc.create_offer_entry(0), svc.create_offer_entry(ttl)]}[order]
+    events = list(regs) + [(0, (1, [13]))]
+    if r.random() < 0.6:
+        events.append((t, (0, 1, r.random() < 0.3, p.datagram(es, False))))
+    else:
+        for e in es:
+            events.append((t, (0, 1, False, p.datagram([e], False))))
+    return dict(cfg=cfg, insts=[], draws=[0] * 4, events=events, end=rounds[-1] + 2 * T, rev=r.random() < 0.3, fuel=20000)
+
+
 def run(ctx):
     r = ctx.rng
     quick = ctx.tier == "quick"
@@ -178,6 +207,8 @@ def run(ctx):
     import random
     r2 = random.Random(ctx.seed * 7919 + 13)      # a stream of its own: the scenarios above stay what they were
     scs += [find_two_offers(r2) for _ in range(40 if quick else 1500)]
+    r3 = random.Random(ctx.seed * 7919 + 113)
+    scs += [find_offer_then_stop(r3) for _ in range(30 if quick else 1000)]
     stackprop.run_scenarios(ctx, scs, 3013, CODES, what="find client")
 
 
